@@ -495,7 +495,7 @@ def register(w):
                        "ih_pred": "lem_assoc_good_ih", "fuel": 4, "properties": PR})
     register_lemma(w, {"name": "lookup_good", "pred": "lem_lookup_good", "induct": "list",
                        "hints": ["lem_assoc_good(dict_keys(head(rfs)), dict_values(head(rfs)), name)"],
-                       "fuel": 4, "properties": PR})
+                       "fuel": 2, "properties": PR})
     for n in ("kh", "kha", "klr", "kld", "klb", "ack"):
         register_lemma(w, {"name": f"proj_{n}", "pred": f"lem_{n}", "induct": "list",
                            "fuel": 4, "hints": hints.get(n, []),
